@@ -99,11 +99,19 @@ def jRaw (r : Except Err (List RawRec)) : Json := jExcept (jList (jList optCps))
 def jCastRead (r : Except Err (List (List Val))) : Json := jExcept (jList (jList jVal)) r
 
 /-- what the harness observes of one relation -/
-def obsRel (fields : Option (List Field)) (r : Rel) : List (String × Json) :=
+def obsRel (fields : Option (List Field)) (r : Rel) (sel : Option (List Name) := none) : List (String × Json) :=
   [("tx", Json.bool r.tx.isSome), ("gz", Json.bool r.gz.isSome)] ++
   match fields with
   | none => []
-  | some fs => [("raw", jRaw (readRaw r)), ("cast", jCastRead (readCast fs r))]
+  | some fs =>
+    [("raw", jRaw (readRaw r)), ("cast", jCastRead (readCast fs r))] ++
+    match sel with
+    | none => []
+    | some cols =>
+      [("open", jExcept (jList cps) (openLines r)),
+       ("sel", jRaw (selectRaw fs (some cols) r)),
+       ("selcast", jCastRead (selectCast fs (some cols) r)),
+       ("selauto", jCastRead (selectAuto fs (some cols) r))]
 
 /-- mtime of files written by `tsdb.write` during a case: later than every "old"/start
 file (small numbers), earlier than every "new" plant (see harness/c09.py) -/
@@ -111,15 +119,15 @@ def MID : Nat := 2000000000
 
 /-! history cases -/
 
-def histStep (fields : List Field) (k : Nat) (r : Rel) (op : Json) : Except String (Rel × Json) := do
+def histStep (fields : List Field) (sel : Option (List Name)) (k : Nat) (r : Rel) (op : Json) : Except String (Rel × Json) := do
   let kind ← getStr op "k"
   match kind with
   | "write" =>
     let recs ← (← getArr op "recs").mapM (fun rj => do (← rj.getArr?).toList.mapM ofVal)
     let q : WReq := { append := ← getBool op "append", gzip := ← getBool op "gzip", staged := stage fields recs }
     match write MID r q with
-    | .ok r' => pure (r', Json.mkObj ([("res", Json.str "ok")] ++ obsRel (some fields) r'))
-    | .error e => pure (r, Json.mkObj ([("res", Json.str (errTag e))] ++ obsRel (some fields) r))
+    | .ok r' => pure (r', Json.mkObj ([("res", Json.str "ok")] ++ obsRel (some fields) r' sel))
+    | .error e => pure (r, Json.mkObj ([("res", Json.str (errTag e))] ++ obsRel (some fields) r sel))
   | "plant" =>
     let gz ← getBool op "gz"
     let lines := plantLines (← ofRawRecs op "recs")
@@ -132,18 +140,18 @@ def histStep (fields : List Field) (k : Nat) (r : Rel) (op : Json) : Except Stri
       | _ => match other with | some f => f.mtime | none => newT
     let f : File := { lines := lines, mtime := mt }
     let r' : Rel := if gz then { r with gz := some f } else { r with tx := some f }
-    pure (r', Json.mkObj ([("res", Json.str "planted")] ++ obsRel (some fields) r'))
+    pure (r', Json.mkObj ([("res", Json.str "planted")] ++ obsRel (some fields) r' sel))
   | "remove" =>
     let gz ← getBool op "gz"
     let r' : Rel := if gz then { r with gz := none } else { r with tx := none }
-    pure (r', Json.mkObj ([("res", Json.str "removed")] ++ obsRel (some fields) r'))
+    pure (r', Json.mkObj ([("res", Json.str "removed")] ++ obsRel (some fields) r' sel))
   | _ => throw s!"bad hist op {kind}"
 
-def histLoop (fields : List Field) : Nat → Rel → List Json → Except String (List Json)
+def histLoop (fields : List Field) (sel : Option (List Name)) : Nat → Rel → List Json → Except String (List Json)
   | _, _, [] => pure []
   | k, r, op :: ops => do
-    let (r', o) ← histStep fields k r op
-    pure (o :: (← histLoop fields (k + 1) r' ops))
+    let (r', o) ← histStep fields sel k r op
+    pure (o :: (← histLoop fields sel (k + 1) r' ops))
 
 /-! database cases -/
 
@@ -178,8 +186,12 @@ def handle (j : Json) : Except String Json := do
   | "hist" =>
     let fields ← ofFields j "fields"
     let r0 ← ofRel (← j.getObjVal? "start")
-    let o0 := Json.mkObj ([("res", Json.str "start")] ++ obsRel (some fields) r0)
-    let os ← histLoop fields 0 r0 (← getArr j "ops")
+    let sel ← match j.getObjVal? "sel" with
+      | .ok Json.null => pure none
+      | .ok v => do pure (some (← (← v.getArr?).toList.mapM ofCps))
+      | .error _ => pure none
+    let o0 := Json.mkObj ([("res", Json.str "start")] ++ obsRel (some fields) r0 sel)
+    let os ← histLoop fields sel 0 r0 (← getArr j "ops")
     pure (Json.arr (o0 :: os).toArray)
   | "db" =>
     let srcSchema ← ofSchema (← j.getObjVal? "src_schema")
@@ -197,28 +209,33 @@ def handle (j : Json) : Except String Json := do
     let q : DbReq := { srcSchema := srcSchema, autocast := autocast, inPlace := inPlace, names := names,
                        schema := ← ofOptSchema j "schema", gzip := ← getBool j "gzip" }
     let watch ← (← getArr j "watch").mapM ofCps
-    let (d, e) := writeDb MID q src dst
     let tss ← match j.getObjVal? "schema" with
       | .ok Json.null => ofSSchema (← j.getObjVal? "src_schema")
       | .ok v => ofSSchema v
       | .error _ => ofSSchema (← j.getObjVal? "src_schema")
-    let back := openSchema (writeSchemaFile tss)
-    let rels := watch.map (fun n =>
+    let (dd, e) := writeDbDir MID q tss src { files := dst }
+    let d := dd.files
+    let back := reopenSchema dd
+    let sels ← match j.getObjVal? "sel" with
+      | .ok v => (← v.getArr?).toList.mapM (fun x => match x with
+          | Json.null => pure (none : Option (List Name))
+          | _ => do pure (some (← (← x.getArr?).toList.mapM ofCps)))
+      | .error _ => pure (watch.map (fun _ => none))
+    let rels := (watch.zip sels).map (fun (n, sel) =>
       let fs : Option (List Field) := match back with
         | .ok s => (s.toSchema.getD []).lookup n
         | .error _ => none
-      Json.mkObj (obsRel fs (d n)))
+      Json.mkObj (obsRel fs (d n) sel))
     pure (Json.mkObj [
       ("res", Json.str (match e with | none => "ok" | some e => errTag e)),
       ("schema", jExcept jSSchema back),
       ("rels", Json.arr rels.toArray)])
   | "schema_rt" =>
     let ss ← ofSSchema (← j.getObjVal? "schema")
-    let lines := writeSchemaFile ss
-    pure (Json.mkObj [("lines", jList cps lines), ("parsed", jExcept jSSchema (openSchema lines))])
+    let text := writeSchema ss
+    pure (Json.mkObj [("text", cps text), ("parsed", jExcept jSSchema (readSchema text))])
   | "schema_parse" =>
-    let lines ← (← getArr j "lines").mapM ofCps
-    pure (jExcept jSSchema (parseSchema lines))
+    pure (jExcept jSSchema (readSchema (← getCps j "text")))
   | _ => throw s!"bad op {op}"
 
 end Verif.C09.Driver
